@@ -89,6 +89,7 @@ class C13(Sim):
                     "scheduler / op generator": "simulator"}
     tiers = {"quick": (3200, 75.0), "thorough": (400000, 1800.0)}
     chunk = 10
+    chunk_thorough = 2  # a thorough run index may enumerate thousands of crash lines
     expected_probes = [
         "copy_of_a_copy", "edit_copy_then_process_original", "process_other_between_inputs_and_process", "restart_after_abort",
         "toggle_process_restore_process", "linear_or_function_engine_copied", "batch_then_scalar_same_engine",
